@@ -184,7 +184,7 @@ func representToBasesShape(P *Program, R *Report, rule string) {
 	// the accumulator is multiplied by the power and returned
 	roots := []ssa.Value{}
 	for _, r := range returnsOf(fn) {
-		roots = append(roots, r.Results[0])
+		roots = append(roots, retValue(r, 0))
 	}
 	if expCall != nil {
 		ds := deps(P, roots[0])
@@ -228,14 +228,14 @@ func randomPrimeInRangeRule(P *Program, R *Report, rule string) {
 	okTerm := true
 	n := 0
 	for _, r := range returnsOf(g) {
-		if _, isMI := r.Results[1].(*ssa.MakeInterface); isMI {
+		if _, isMI := retValue(r, 1).(*ssa.MakeInterface); isMI {
 			continue
 		}
-		if isNilConst(r.Results[0]) {
+		if isNilConst(retValue(r, 0)) {
 			continue
 		}
 		// named results: p is loaded from its alloc
-		t, ok := be.Use[r][r.Results[0]]
+		t, ok := be.Use[r][retValue(r, 0)]
 		if !ok {
 			continue
 		}
@@ -283,10 +283,10 @@ func randomPrimeInRangeRule(P *Program, R *Report, rule string) {
 		}
 		// the tested object is the returned one
 		for _, r := range returnsOf(g) {
-			if len(r.Results) == 2 && !isNilConst(r.Results[0]) && siteOf(r.Results[0]) == siteOf(callArgs(c)[0]) {
+			if retCount(r) == 2 && !isNilConst(retValue(r, 0)) && siteOf(retValue(r, 0)) == siteOf(callArgs(c)[0]) {
 				return true
 			}
-			if u, ok := r.Results[0].(*ssa.UnOp); ok {
+			if u, ok := retValue(r, 0).(*ssa.UnOp); ok {
 				if u2, ok := callArgs(c)[0].(*ssa.UnOp); ok && u.X == u2.X {
 					return true
 				}
@@ -427,40 +427,99 @@ func onlySpecifiedRejectionsRule(P *Program, R *Report) {
 // per distinct reason. Returns the number of rejecting branches.
 func enumerateRejections(P *Program, R *Report, rule, key string, fn *ssa.Function, classify func(Atom) (string, bool)) int {
 	n := 0
-	for _, r := range returnsOf(fn) {
-		v, isB := boolConst(retValue(r, 0))
-		if !isB || v {
-			continue
+	for _, ra := range rejectingAtoms(P, fn) {
+		a := ra.a
+		// a block of checks extracted into an unexported helper of the same receiver: its branches count
+		if c, _ := callAndResult(a.V); c != nil && a.Want == False {
+			if g := staticCallee(c); g != nil && g != fn && g.Blocks != nil && g.Pkg == fn.Pkg && g.Object() != nil && !g.Object().Exported() && sameReceiver(fn, g) {
+				if rs := g.Signature.Results(); rs.Len() == 1 && rs.At(0).Type().String() == "bool" {
+					var m int
+					bindCall(c, g, func() { m = enumerateRejections(P, R, rule, key, g, classify) })
+					if m > 0 {
+						n += m
+						continue
+					}
+				}
+			}
 		}
-		b := r.Block()
+		n++
+		what, ok2 := classify(a)
+		R.decide(rule, fmt.Sprintf("%s:reject:%s", key, what), "a rejecting branch is one of the specified reasons", ok2, "rejects on: "+what+" ["+desc(a.V)+" is "+a.Want.String()+"]", ra.pos)
+	}
+	return n
+}
+
+type atomAt struct {
+	a   Atom
+	pos string
+}
+
+// rejectingAtoms: the conditions under which a function with a boolean verdict (result 0) answers false - the branch
+// conditions that lead to a `return false`, the operands of a returned conjunction (`return a && f(x)` answers false
+// when a is false or when f(x) is), and the operands of a condition that was first computed into a boolean
+// (`ok := a && b; if !ok { return false }`): each operand with the polarity that makes the verdict false.
+func rejectingAtoms(P *Program, fn *ssa.Function) []atomAt {
+	var out []atomAt
+	var record func(a Atom, pos string)
+	var intoBlock func(b *ssa.BasicBlock, depth int, seen map[*ssa.BasicBlock]bool)
+	record = func(a Atom, pos string) {
+		a = normAtom(a)
+		if phi, ok := a.V.(*ssa.Phi); ok && (a.Want == False || a.Want == True) {
+			for i, e := range phi.Edges {
+				if bc, isB := boolConst(e); isB {
+					if bc == (a.Want == True) {
+						p := phi.Block().Preds[i]
+						if iff, ok := p.Instrs[len(p.Instrs)-1].(*ssa.If); ok {
+							want := True
+							if p.Succs[1] == phi.Block() {
+								want = False
+							}
+							record(Atom{Fn: fn, V: iff.Cond, Want: want}, P.Pos(condPos(iff)))
+						} else {
+							intoBlock(p, 0, map[*ssa.BasicBlock]bool{})
+						}
+					}
+					continue
+				}
+				record(Atom{Fn: fn, V: e, Want: a.Want}, pos)
+			}
+			return
+		}
+		out = append(out, atomAt{a, pos})
+	}
+	intoBlock = func(b *ssa.BasicBlock, depth int, seen map[*ssa.BasicBlock]bool) {
+		if seen[b] || depth > 4 {
+			return
+		}
+		seen[b] = true
 		for _, p := range b.Preds {
 			iff, ok := p.Instrs[len(p.Instrs)-1].(*ssa.If)
 			if !ok {
+				if len(p.Succs) == 1 && onlyJumpAndPure(p) {
+					intoBlock(p, depth+1, seen)
+				}
 				continue
 			}
 			want := True
 			if p.Succs[1] == b {
 				want = False
 			}
-			// a block of checks extracted into an unexported helper of the same receiver: its branches count
-			if c, _ := callAndResult(normAtom(Atom{Fn: fn, V: iff.Cond, Want: want}).V); c != nil && normAtom(Atom{Fn: fn, V: iff.Cond, Want: want}).Want == False {
-				if g := staticCallee(c); g != nil && g != fn && g.Blocks != nil && g.Pkg == fn.Pkg && g.Object() != nil && !g.Object().Exported() && sameReceiver(fn, g) {
-					if rs := g.Signature.Results(); rs.Len() == 1 && rs.At(0).Type().String() == "bool" {
-						var m int
-						bindCall(c, g, func() { m = enumerateRejections(P, R, rule, key, g, classify) })
-						if m > 0 {
-							n += m
-							continue
-						}
-					}
-				}
-			}
-			n++
-			what, ok2 := classify(Atom{Fn: fn, V: iff.Cond, Want: want})
-			R.decide(rule, fmt.Sprintf("%s:reject:%s", key, what), "a rejecting branch is one of the specified reasons", ok2, "rejects on: "+what+" ["+desc(iff.Cond)+" is "+want.String()+"]", P.Pos(condPos(iff)))
+			record(Atom{Fn: fn, V: iff.Cond, Want: want}, P.Pos(condPos(iff)))
 		}
 	}
-	return n
+	for _, r := range returnsOf(fn) {
+		v := retValue(r, 0)
+		if bc, isB := boolConst(v); isB {
+			if !bc {
+				intoBlock(r.Block(), 0, map[*ssa.BasicBlock]bool{})
+			}
+			continue
+		}
+		if v.Type().String() == "bool" {
+			record(Atom{Fn: fn, V: v, Want: False}, P.Pos(r.Pos()))
+		}
+	}
+	return out
 }
 
 // sameReceiver: g works on fn's own receiver (a method of the same type, or a function handed that receiver).
